@@ -41,85 +41,112 @@ Proof.
   constructor; [|constructor; [intros []|constructor]]. intros [H|[]]. discriminate.
 Qed.
 
-(* ============ statements the faithful model of the tree AS IT IS violates (found by the deepened model) ============
-   (3) the literal null as a request text: POST /ks/ and a BLIP rev decode it into a nil map without error and panic in
-       prepareSyncFn (mutableBody[BodyId] = ...) instead of answering 400.
-   (4) a BLIP rev whose body has bytes after the JSON object is accepted and the bytes are stored as received
-       (Body.Unmarshal decodes one value and never looks at the rest); the byte-splicing exits then have no document to
-       return (_changes?include_docs drops the document or the whole row, _all_docs?include_docs answers 500).
-   (5) PUT ?new_edits=false / _bulk_docs new_edits=false drop the error of ExtractExpiry: an _exp that is not an expiry
-       is stored (the same body gets 400 from PUT, POST, _bulk_docs and BLIP).
-   (6) _cv is let into the stored body by new_edits=false, BLIP rev and import; the exits that inject _cv then replace the
-       stored value (map exits) or emit the name twice (_changes?include_docs). *)
+(* ============ the four defects found by the deepened model, all repaired in /repo ============
+   [accept] describes the repaired tree.  Each statement below HOLDS for it (first theorem of each group) and FAILS for the
+   tree with that one repair switched off, [accept_gen] with the other switches on (second theorem) -- the behaviour a
+   worktree with the commit reverted shows, which the monitor of the same name reports.
+   (3) 0a738b1 null-body-panic: the literal null as a request text made POST /ks/ and a BLIP rev panic in prepareSyncFn.
+   (4) b5cfb32 blip-trailing-bytes-stored: a BLIP rev body with bytes after the JSON object was stored as received; the
+       byte-splicing exits then have no document to return.
+   (5) d54ae5f new-edits-false-invalid-exp-stored: PutExistingRevWithBody dropped the error of ExtractExpiry.
+   (6) d51088e stored-cv-clashes-with-injected-cv: _cv was let into the stored body by new_edits=false, BLIP rev and import;
+       the exits that inject _cv then replace the stored value (map exits) or emit the name twice (splice exits). *)
+Definition off_null : fixes := {| fx_null := false; fx_trailing := true; fx_exp := true; fx_cv := true |}.
+Definition off_trailing : fixes := {| fx_null := true; fx_trailing := false; fx_exp := true; fx_cv := true |}.
+Definition off_exp : fixes := {| fx_null := true; fx_trailing := true; fx_exp := false; fx_cv := true |}.
+Definition off_cv : fixes := {| fx_null := true; fx_trailing := true; fx_exp := true; fx_cv := false |}.
 
-Definition nonobject_refused_with_status : Prop :=
-  forall e t, (t = TInvalid \/ t = TNonObj \/ t = TNull) -> exists s, accept e t = RRej s.
+(* (3) *)
+Definition nonobject_refused_with_status (acc : entry -> top -> result) : Prop :=
+  forall e t, (t = TInvalid \/ t = TNonObj \/ t = TNull) -> exists s, acc e t = RRej s.
 
-Theorem null_body_panics_refuted : ~ nonobject_refused_with_status.
+Theorem null_body_refused : nonobject_refused_with_status accept.
+Proof. exact nonobject_never_stored. Qed.
+
+Theorem null_body_panics_refuted : ~ nonobject_refused_with_status (accept_gen off_null).
+Proof. intros H. destruct (H EPost TNull) as [s Hs]; [tauto|]. discriminate. Qed.
+
+Theorem null_body_panics_blip_too : accept_gen off_null EBlip TNull = RPanic.
+Proof. reflexivity. Qed.
+
+(* (4) *)
+Definition gateway_stores_only_json_objects (acc : entry -> top -> result) : Prop :=
+  forall e t r tms tr, acc e t = r -> stored_text t r = Some (tms, tr) -> e <> EImport -> tr = false.
+
+Theorem trailing_bytes_never_stored : gateway_stores_only_json_objects accept.
 Proof.
-  intros H. destruct (H EPost TNull) as [s Hs]; [tauto|]. discriminate.
+  intros e t r tms tr Hr Hst Hne. destruct tr; [|reflexivity]. exfalso. apply Hne.
+  now apply (trailing_stored_only_import e t r tms).
 Qed.
 
-Definition gateway_stores_only_json_objects : Prop :=
-  forall e t r tms tr, accept e t = r -> stored_text t r = Some (tms, tr) -> e <> EImport -> tr = false.
-
-Theorem blip_trailing_bytes_refuted : ~ gateway_stores_only_json_objects.
+Theorem blip_trailing_bytes_refuted : ~ gateway_stores_only_json_objects (accept_gen off_trailing).
 Proof.
-  intros H. specialize (H EBlip (TObj [([97], KNum, false)] true) _ _ true eq_refl eq_refl). assert (true = false) by (apply H; discriminate). discriminate.
+  intros H. specialize (H EBlip (TObj [([97], KNum, false)] true) _ _ true eq_refl eq_refl).
+  assert (true = false) by (apply H; discriminate). discriminate.
 Qed.
 
-(* ... and such a document cannot be read through a splice exit *)
-Theorem blip_trailing_bytes_unreadable :
-  exists t d, accept_v vk (fun v => v) (fun v => v) EBlip t = VStored d true /\
-    forall mt, read (fun v => v) XChanges mt d = None /\ read (fun v => v) (XAllDocs false) mt d = None.
-Proof.
-  exists (VObj [([97], KNum, false)] true). eexists. split; [vm_compute; reflexivity|]. intros mt. split; reflexivity.
-Qed.
+(* ... and such a stored text cannot be read through a splice exit *)
+Theorem blip_trailing_bytes_unreadable : forall mt ms,
+  read (fun v : vk => v) XChanges mt {| sd_ms := ms; sd_trailing := true |} = None /\
+  read (fun v : vk => v) (XAllDocs false) mt {| sd_ms := ms; sd_trailing := true |} = None.
+Proof. intros mt ms. split; reflexivity. Qed.
 
-Definition invalid_expiry_never_stored : Prop :=
-  forall e raw tr ms vb v, accept e (TObj raw tr) = RStored ms vb -> e <> EImport -> e <> EImportFeed ->
+(* (5) *)
+Definition invalid_expiry_never_stored (acc : entry -> top -> result) : Prop :=
+  forall e raw tr ms vb v, acc e (TObj raw tr) = RStored ms vb -> e <> EImport -> e <> EImportFeed ->
     In (k_exp, v) ms -> v = KNull.
 
-Theorem new_edits_false_invalid_exp_refuted : ~ invalid_expiry_never_stored.
+Theorem invalid_exp_never_stored : invalid_expiry_never_stored accept.
+Proof.
+  intros e raw tr ms vb v H H1 H2 Hin.
+  assert (Hl : leak e k_exp v = true).
+  { apply (stored_read_key_is_leak e raw tr ms vb H k_exp v Hin). unfold read_keys. cbn [In]. tauto. }
+  destruct e, v; try reflexivity; try (vm_compute in Hl; discriminate); congruence.
+Qed.
+
+Theorem new_edits_false_invalid_exp_refuted : ~ invalid_expiry_never_stored (accept_gen off_exp).
 Proof.
   intros H.
   specialize (H EPutNE [(k_exp, KTrue, false); ([97], KNum, false)] false _ _ KTrue eq_refl).
   assert (KTrue = KNull); [|discriminate]. apply H; try discriminate. now left.
 Qed.
 
-(* the same body is refused by the other gateway entry points *)
-Theorem invalid_exp_refused_elsewhere :
-  let t := TObj [(k_exp, KTrue, false); ([97], KNum, false)] false in
-  accept EPut t = RRej 400 /\ accept EPost t = RRej 400 /\ accept EBulk t = RRej 400 /\ accept EBlip t = RRej 400 /\
-  accept EPutNE t = RStored [(k_exp, KTrue); ([97], KNum)] false /\ accept EBulkNE t = RStored [(k_exp, KTrue); ([97], KNum)] false.
+(* (6) *)
+Definition cv_never_stored (acc : entry -> top -> result) : Prop :=
+  forall e raw tr ms vb v, acc e (TObj raw tr) = RStored ms vb -> ~ In (k_cv, v) ms.
+
+Theorem cv_is_never_stored : cv_never_stored accept.
+Proof.
+  intros e raw tr ms vb v H Hin.
+  assert (Hr : reserved_everywhere k_cv = false).
+  { apply (stored_no_reserved e (TObj raw tr) _ ms false H).
+    - destruct vb; [|reflexivity]. exfalso.
+      (* a byte-preserving entry point: the member is in the decoded view, hence in the text *)
+      assert (Hl : leak e k_cv v = true).
+      { apply (stored_read_key_is_leak e raw tr ms true H k_cv v Hin). unfold read_keys. cbn [In]. tauto. }
+      destruct e, v; vm_compute in Hl; discriminate.
+    - apply in_map_iff. now exists (k_cv, v). }
+  vm_compute in Hr. discriminate.
+Qed.
+
+Theorem cv_stored_refuted : ~ cv_never_stored (accept_gen off_cv).
+Proof.
+  intros H. apply (H EBlip [(k_cv, KStr, false); ([97], KNum, false)] false _ _ KStr eq_refl). now left.
+Qed.
+
+(* through all three entry points that let it in *)
+Theorem cv_stored_by_three_entry_points :
+  let t := TObj [(k_cv, KStr, false); ([97], KNum, false)] false in
+  accept_gen off_cv EPutNE t = RStored [(k_cv, KStr); ([97], KNum)] false /\
+  accept_gen off_cv EBlip t = RStored [(k_cv, KStr); ([97], KNum)] true /\
+  accept_gen off_cv EImport t = RStored [(k_cv, KStr); ([97], KNum)] true /\
+  accept EPutNE t = RStored [([97], KNum)] false /\ accept EBlip t = RRej 404 /\ accept EImport t = RRej 404.
 Proof. repeat split; vm_compute; reflexivity. Qed.
 
-Definition response_members_are_distinct : Prop :=
-  forall e x mt raw d vb, accept_v vk (fun v => v) (fun v => v) e (VObj raw false) = VStored d vb -> NoDup (map vkey raw) ->
-    exists out, read (fun v => v) x mt d = Some out /\ NoDup (map fst out).
-
-Theorem stored_cv_doubled_refuted : ~ response_members_are_distinct.
-Proof.
-  intros H.
-  destruct (H EBlip XChanges {| m_cv := true; m_deleted := false; m_exp := false; m_atts := ANil |}
-              [(k_cv, KStr, false); ([97], KNum, false)] _ _ eq_refl) as [out [Hout Hnd]].
-  - cbn [map vkey fst]. constructor; [|constructor; [intros []|constructor]]. intros [E|[]]. discriminate.
-  - vm_compute in Hout. inversion Hout; subst out. clear Hout. cbn [map fst] in Hnd.
-    inversion Hnd as [|x l Hn _]; subst. apply Hn. cbn [In]. tauto.
-Qed.
-
-Definition stored_members_come_back : Prop :=
-  forall e x mt raw d vb, accept_v vk (fun v => v) (fun v => v) e (VObj raw false) = VStored d vb -> NoDup (map vkey raw) ->
-    exists out, read (fun v => v) x mt d = Some out /\
-      forall k v, In (k, v) (sd_ms d) -> In (k, OU v) (parsed out).
-
-Theorem stored_cv_shadowed_refuted : ~ stored_members_come_back.
-Proof.
-  intros H.
-  destruct (H EPutNE (XGet false false) {| m_cv := true; m_deleted := false; m_exp := false; m_atts := ANil |}
-              [(k_cv, KStr, false); ([97], KNum, false)] _ _ eq_refl) as [out [Hout Hall]].
-  - cbn [map vkey fst]. constructor; [|constructor; [intros []|constructor]]. intros [E|[]]. discriminate.
-  - vm_compute in Hout. inversion Hout; subst out. clear Hout.
-    specialize (Hall k_cv KStr). cbn [sd_ms] in Hall. assert (Hin : In (k_cv, KStr) [(k_cv, KStr); ([97], KNum)]) by now left.
-    apply Hall in Hin. vm_compute in Hin. repeat (destruct Hin as [Hin|Hin]; [discriminate|]). contradiction.
-Qed.
+(* what the read exits make of such a stored body: the name twice (splice), the stored value replaced (map) *)
+Theorem stored_cv_doubled_and_shadowed :
+  let mt := {| m_cv := true; m_deleted := false; m_exp := false; m_atts := ANil |} in
+  let d := {| sd_ms := [(k_cv, KStr); ([97], KNum)]; sd_trailing := false |} in
+  read (fun v : vk => v) XChanges mt d = Some [(k_cv, OU KStr); ([97], OU KNum); (k_id, OG); (k_rev, OG); (k_cv, OG)] /\
+  read (fun v : vk => v) (XGet false false) mt d = Some [([97], OU KNum); (k_id, OG); (k_rev, OG); (k_cv, OG)].
+Proof. split; vm_compute; reflexivity. Qed.
